@@ -178,7 +178,7 @@ func C14(r *chk.Run) {
 	}
 	r.Rule("for every workload x configuration the fault-free run is taken first; then every destination Write call is a choice point with answers ok | (0,err) | (len/2,err) | (len-1,ErrShortWrite), each transient or sticky, deviation bound 1 (complete: the caller stops at the first reported error); attachment sources: fail after every j<=size (error delivered with or after the data), end after every j<size, deliver size+1 / size+100; non-trivial = distinct (accepted bytes, fault) pairs")
 	r.Assume("contract-violating sink answers (short count with nil error) are not generated: io.Writer forbids them")
+	r.Phase("attachment-source-faults", c14AttBody, chk.PhaseOpts{Bound: 1, Share: 0.2})
 	r.Phase(fmt.Sprintf("sink-faults-reduced-depth<=%d", depth), c14SinkBody(model.Reduced(), depth, nil, r.Thorough()), chk.PhaseOpts{Bound: 1, Share: 0.5})
 	r.Phase("sink-faults-emphasis", c14SinkBody(model.Alphabet{}, 0, emphasis()[:5], r.Thorough()), chk.PhaseOpts{Bound: 1, Share: 0.6})
-	r.Phase("attachment-source-faults", c14AttBody, chk.PhaseOpts{Bound: 1})
 }
